@@ -6,6 +6,7 @@
   minicbor-derive/src/decode.rs), `encTy` of the generated `Encode` impl.
 -/
 import Minicbor.Lemmas.DeriveDec
+import Minicbor.Lemmas.DeriveIndef
 import Minicbor.Lemmas.TotalAcc
 
 namespace Minicbor.C09
@@ -462,9 +463,146 @@ The property also quantifies over re-framings of the encoding.  Stated on wire t
 any valid tree `w` whose data-model value is the documented value and which does not chunk its
 strings (the `String` / byte-string decoders reject chunked strings by design).  On the code as
 it is the statement is false (K8): the generated enum decoder insists on a *definite* two-element
-wrapper.  `derive_decode_reframed_partial` is the statement for the preferred framing (which is
-`derive_roundtrip` read through C08); the other framings (indefinite struct / variant / `Vec`
-containers, widened heads) are covered by the correspondence stream `derive-reframed` only. -/
+wrapper.  Proved parts: `derive_decode_reframed_partial` (the preferred framing, i.e.
+`derive_roundtrip` read through C08) and `derive_decode_indefinite_struct` (the struct's own
+array / map container in indefinite-length form, both encodings, with fuel adequacy of the
+model's loops); the remaining framings (indefinite nested / variant / `Vec` containers, widened
+heads) are covered by the correspondence stream `derive-reframed` only. -/
+
+/-- a struct / variant body as the documented items inside an *indefinite-length* container. -/
+def indefBody (enc : Encoding) (fs : Fields) (vs : List Derive.Val) : Bytes :=
+  match enc with
+  | .array =>
+      0x9f :: ((match maxPresent (specFields fs vs) with
+        | none => []
+        | some m => encPrefs ((List.range' 0 (m + 1)).map (cellAt (specFields fs vs)))) ++ [0xff])
+  | .map => 0xbf :: (mapStmts (sortP (encFields fs vs)) ++ [0xff])
+
+/-- `datatype()` at the start of every array cell neither fails nor answers `Break` (holds for
+    every encoding; kept as a decidable hypothesis like `noClash`). -/
+def cellsStartOk (fs : Fields) (vs : List Derive.Val) : Bool :=
+  match maxPresent (specFields fs vs) with
+  | none => true
+  | some m => (List.range' 0 (m + 1)).all fun i => startNB (encPref (cellAt (specFields fs vs) i))
+
+theorem encPref_length_pos (x : Item) : 1 ≤ (encPref x).length := by
+  cases x <;> simp [encPref, prefTree, encW, headW]
+  split <;> simp
+
+theorem encPrefs_length_ge (xs : List Item) : xs.length ≤ (encPrefs xs).length := by
+  induction xs with
+  | nil => simp
+  | cons x xs ih =>
+    rw [encPrefs_cons, List.length_append, List.length_cons]
+    have := encPref_length_pos x
+    omega
+
+theorem mapStmts_length_ge (S : List (Derive.Piece Bytes)) : countPresent S ≤ (mapStmts S).length := by
+  induction S with
+  | nil => simp [countPresent, mapStmts]
+  | cons p ps ih =>
+    cases hn : p.nil
+    · have : 1 ≤ (Enc.u32 p.idx).length := by unfold Enc.u32; (repeat' split) <;> simp
+      simp [countPresent, mapStmts, hn]; omega
+    · simp [countPresent, mapStmts, hn, ih]
+
+/-- the indefinite-length loops of `gen_statements` read a body given in an indefinite-length
+    container (fuel adequacy included: the loop never runs out of the local fuel). -/
+theorem fieldsDec_indef (enc : Encoding) (fs : Fields) (vs : List Derive.Val) (rest : Bytes)
+    (hacc : acceptedFields fs = true) (hnd : (liveIdxs fs).Nodup) (hty : hasFields fs vs = true)
+    (hrt : FieldsRT fs vs) (hst : enc = .array → cellsStartOk fs vs = true) :
+    Derive.fieldsDec enc (decFields fs) (indefBody enc fs vs ++ rest) = .ok (defaultsFields fs vs) rest := by
+  have hinit := inv_init fs vs hty
+  cases enc with
+  | array =>
+    have hst' := hst rfl
+    have harr : ∀ X : Bytes, Dec.array (0x9f :: X) = .ok none X := by
+      intro X; simp [Dec.array, Dec.container, Dec.bind_run, Dec.majorOf, Dec.infoOf]; rfl
+    cases hm : maxPresent (specFields fs vs) with
+    | none =>
+      have hnil := maxPresent_none hm
+      have hres := resolve_inv (fun _ => false) fs vs _ hacc hty hinit (by
+        intro p hp
+        rw [C08.fields_spec fs vs hacc hty] at hp
+        obtain ⟨q, hq, rfl⟩ := List.mem_map.1 hp
+        exact Or.inr (hnil q hq)) rest
+      obtain ⟨ss', h1, hi1⟩ := arrLoopI_cells rest fs vs hacc hnd hty hrt 0 0 _ _ (rest.length + 1 + 1) (by omega) hinit
+        (by intro i h1 h2; omega)
+      simp only [List.range'_zero, List.map_nil, encPrefs_nil, List.nil_append] at h1
+      have hres' := resolve_inv _ fs vs ss' hacc hty hi1 (by
+        intro p hp
+        rw [C08.fields_spec fs vs hacc hty] at hp
+        obtain ⟨q, hq, rfl⟩ := List.mem_map.1 hp
+        exact Or.inr (hnil q hq)) rest
+      simp only [indefBody, hm, List.nil_append, List.cons_append, Derive.fieldsDec, statements, Dec.bind_run, harr,
+        Dec.remaining, List.length_cons, h1, hres']
+    | some m =>
+      simp only [cellsStartOk, hm, List.all_eq_true] at hst'
+      have hlen : m + 1 ≤ (encPrefs ((List.range' 0 (m + 1)).map (cellAt (specFields fs vs)))).length := by
+        have := encPrefs_length_ge ((List.range' 0 (m + 1)).map (cellAt (specFields fs vs)))
+        simpa using this
+      obtain ⟨ss', h1, hi1⟩ := arrLoopI_cells rest fs vs hacc hnd hty hrt (m + 1) 0 _ _
+        ((encPrefs ((List.range' 0 (m + 1)).map (cellAt (specFields fs vs))) ++ 0xff :: rest).length + 1)
+        (by simp only [List.length_append]; omega) hinit
+        (by intro i _ h2; exact hst' i (by simp [List.mem_range']; omega))
+      have hres := resolve_inv _ fs vs ss' hacc hty hi1 (by
+        intro p hp
+        rw [C08.fields_spec fs vs hacc hty] at hp
+        obtain ⟨q', hq', rfl⟩ := List.mem_map.1 hp
+        cases hn : q'.nil
+        · left
+          have := maxPresent_ge hm q' hq' hn
+          simp; omega
+        · right; exact hn) rest
+      simp only [indefBody, hm, List.cons_append, List.append_assoc, List.singleton_append, List.nil_append,
+        Derive.fieldsDec, statements, Dec.bind_run, harr, Dec.remaining, h1, hres]
+  | map =>
+    have hmap : ∀ X : Bytes, Dec.map (0xbf :: X) = .ok none X := by
+      intro X; simp [Dec.map, Dec.container, Dec.bind_run, Dec.majorOf, Dec.infoOf]; rfl
+    have hperm := sortP_perm (encFields fs vs)
+    have hS : ∀ p ∈ sortP (encFields fs vs), p ∈ encFields fs vs ∧ p.idx < U32 := by
+      intro p hp
+      have := hperm.mem_iff.1 hp
+      exact ⟨this, mem_encFields_idx fs vs hacc hty p this⟩
+    have hge := mapStmts_length_ge (sortP (encFields fs vs))
+    obtain ⟨ss', h1, hi1⟩ := mapLoopI_stmts rest fs vs hacc hnd hrt (sortP (encFields fs vs)) _ _
+      ((mapStmts (sortP (encFields fs vs)) ++ 0xff :: rest).length + 1)
+      (by simp only [List.length_append]; omega) hS hinit
+    have hres := resolve_inv _ fs vs ss' hacc hty hi1 (by
+      intro p hp
+      cases hn : p.nil
+      · left
+        have hp' := hperm.mem_iff.2 hp
+        simp only [Bool.false_or, presentIdx, List.any_eq_true]
+        exact ⟨p, hp', by simp [hn]⟩
+      · right; rfl) rest
+    simp only [indefBody, List.cons_append, List.append_assoc, List.singleton_append, List.nil_append,
+      Derive.fieldsDec, statements, Dec.bind_run, hmap, Dec.remaining, h1, hres]
+
+/-- **indefinite-length struct container** (`_partial` next to the K8 counterexample): a struct
+    whose array / map container is given in indefinite-length form (`9f … ff` / `bf … ff`),
+    the fields inside as the encoder writes them, decodes to the same value and is consumed
+    exactly — for every accepted struct and value, both encodings. -/
+theorem derive_decode_indefinite_struct (a : SAttr) (fs : Fields) (vs : List Derive.Val) (rest : Bytes)
+    (ha : accepted (.struct a fs) = true) (hv : hasTy (.struct a fs) (.struct vs) = true)
+    (hc : noClash (.struct a fs) (.struct vs) = true) (hta : a.transparent = false)
+    (hst : a.enc.getD .array = .array → cellsStartOk fs vs = true) :
+    deriveDecode (.struct a fs) (tagBytes a.tag ++ (indefBody (a.enc.getD .array) fs vs ++ rest))
+      = .ok (.struct (defaultsFields fs vs)) rest := by
+  simp only [accepted, Bool.and_eq_true] at ha
+  simp only [hasTy] at hv
+  simp only [noClash] at hc
+  have hrt := fields_roundtrip fs vs ha.1.1.1.2 hv hc
+  simp only [deriveDecode, decTy, structDec, hta, Bool.false_eq_true, if_false]
+  rw [Dec.bind_run, tagCheck_rt _ _ ha.1.1.1.1]
+  simp only []
+  rw [Dec.bind_run, fieldsDec_indef _ fs vs rest ha.1.1.1.2 (C08.nodupNat_nodup _ ha.1.1.2) hv hrt hst]
+  rfl
+
+example : deriveDecode C08.exStruct ([0xc9] ++ (indefBody .array
+      [({ idx := 3, tag := some 5 }, .option (.int .u8)), ({ idx := 0 }, .text .string), ({ idx := 1, codec := .nilu }, .int .u32), ({ skip := true }, .bool)]
+      [.some (.int 7), .text [0x61], .int 0, .bool true] ++ [0x01]))
+    = .ok (.struct [.some (.int 7), .text [0x61], .int 0, .bool false]) [0x01] := by rfl
 
 mutual
 def noChunks : WItem → Bool
